@@ -340,17 +340,122 @@ pub struct ParIter<'a, T: Send> {
     ordered: bool,
 }
 
-pub trait ParallelIterator: Sized {
+/// The trait face of the iterator: what code sees that passes iterators around as `impl ParallelIterator<Item = ..>`
+/// (helper functions returning an opaque parallel iterator). Every provided method forwards to the inherent method of
+/// `ParIter` with the same name, so an opaque iterator is scheduled by the same model.
+pub trait ParallelIterator: Sized + Send {
     type Item: Send;
-    fn into_par(self) -> ParIter<'static, Self::Item>
+    #[doc(hidden)]
+    fn into_tasks<'a>(self) -> ParIter<'a, Self::Item>
     where
-        Self: 'static,
+        Self: 'a;
+
+    fn map<'a, U: Send + 'a, F: Fn(Self::Item) -> U + Sync + Send + 'a>(self, f: F) -> ParIter<'a, U>
+    where
+        Self: 'a,
     {
-        unimplemented!()
+        self.into_tasks().map(f)
+    }
+    fn filter<'a, F: Fn(&Self::Item) -> bool + Sync + Send + 'a>(self, f: F) -> ParIter<'a, Self::Item>
+    where
+        Self: 'a,
+    {
+        self.into_tasks().filter(f)
+    }
+    fn filter_map<'a, U: Send + 'a, F: Fn(Self::Item) -> Option<U> + Sync + Send + 'a>(self, f: F) -> ParIter<'a, U>
+    where
+        Self: 'a,
+    {
+        self.into_tasks().filter_map(f)
+    }
+    fn flat_map<'a, I: IntoIterator + 'a, F: Fn(Self::Item) -> I + Sync + Send + 'a>(self, f: F) -> ParIter<'a, I::Item>
+    where
+        Self: 'a,
+        I::Item: Send + 'a,
+    {
+        self.into_tasks().flat_map(f)
+    }
+    fn flat_map_iter<'a, I: IntoIterator + 'a, F: Fn(Self::Item) -> I + Sync + Send + 'a>(self, f: F) -> ParIter<'a, I::Item>
+    where
+        Self: 'a,
+        I::Item: Send + 'a,
+    {
+        self.into_tasks().flat_map(f)
+    }
+    fn enumerate<'a>(self) -> ParIter<'a, (usize, Self::Item)>
+    where
+        Self: 'a,
+    {
+        self.into_tasks().enumerate()
+    }
+    fn inspect<'a, F: Fn(&Self::Item) + Sync + Send + 'a>(self, f: F) -> ParIter<'a, Self::Item>
+    where
+        Self: 'a,
+    {
+        self.into_tasks().inspect(f)
+    }
+    fn map_init<'a, S, U: Send + 'a, I: Fn() -> S + Sync + Send + 'a, F: Fn(&mut S, Self::Item) -> U + Sync + Send + 'a>(self, init: I, f: F) -> ParIter<'a, U>
+    where
+        Self: 'a,
+    {
+        self.into_tasks().map_init(init, f)
+    }
+    fn fold<'a, A: Send + 'a, ID: Fn() -> A + Sync + Send + 'a, F: Fn(A, Self::Item) -> A + Sync + Send + 'a>(self, identity: ID, op: F) -> ParIter<'a, A>
+    where
+        Self: 'a,
+    {
+        self.into_tasks().fold(identity, op)
+    }
+    fn reduce<'a, ID: Fn() -> Self::Item + Sync + Send + 'a, F: Fn(Self::Item, Self::Item) -> Self::Item + Sync + Send + 'a>(self, identity: ID, op: F) -> Self::Item
+    where
+        Self: 'a,
+    {
+        self.into_tasks().reduce(identity, op)
+    }
+    fn for_each<'a, F: Fn(Self::Item) + Sync + Send + 'a>(self, f: F)
+    where
+        Self: 'a,
+    {
+        self.into_tasks().for_each(f)
+    }
+    fn collect<'a, C: FromParallelIterator<Self::Item>>(self) -> C
+    where
+        Self: 'a,
+    {
+        self.into_tasks().collect()
+    }
+    fn count<'a>(self) -> usize
+    where
+        Self: 'a,
+    {
+        self.into_tasks().count()
+    }
+    fn sum<'a, S: std::iter::Sum<Self::Item> + std::iter::Sum<S> + Send + 'a>(self) -> S
+    where
+        Self: 'a,
+    {
+        self.into_tasks().sum()
+    }
+    fn with_min_len(self, _n: usize) -> Self {
+        self
+    }
+    fn with_max_len(self, _n: usize) -> Self {
+        self
     }
 }
 
-pub trait IndexedParallelIterator {}
+impl<'b, T: Send + 'b> ParallelIterator for ParIter<'b, T> {
+    type Item = T;
+    fn into_tasks<'a>(self) -> ParIter<'a, T>
+    where
+        Self: 'a,
+    {
+        self
+    }
+}
+
+pub trait IndexedParallelIterator: ParallelIterator {}
+impl<'b, T: Send + 'b> IndexedParallelIterator for ParIter<'b, T> {}
 /// `par_chunks`, `par_chunks_exact`, `par_windows` of shared slices.
 pub trait ParallelSlice<T: Sync> {
     fn as_parallel_slice(&self) -> &[T];
